@@ -12,6 +12,19 @@ ops (addresses are symbolic; `mk:<denom>` is the marker address of `<denom>`):
        `inputOutputCoinsProv` with one input and one output / `delegateCoins` on a ledger where the sender
        holds `fund`, default = the coins; nothing locked, no later restriction interferes)
        → allow moved | deny:<class> unmoved | err:bank unmoved (invalid coins, insufficient funds, …)
+  bankx <same fields> via=send|inout|multi|delegate [outs=<coins>@<addr>/<coins>@<addr>…] [ins=…] [rto=<a|a>]
+        [fund=<coins>] [hold=<coins>] [sanc=<a|a>] [quar=<a|a>] [qacc=<a|a>]
+       the bank op with everything the app composes around the marker restriction: one input and several
+       outputs (`outs`, `coins` = the input's coins) or several inputs and one output (`ins`, `coins` = the
+       output's coins) through InputOutputCoinsProv, part of the sender's balance on hold (`hold`: the hold
+       module's locked coins), sanctioned addresses (`sanc`), receivers that opted into quarantine (`quar`;
+       `qacc`: of those, the ones auto-accepting the payers), `rto`: further addresses holding `rattrs`.
+       The sender holds `fund` (default: its inputs), other payers exactly their inputs.
+       → allow | deny:<class> | err:invalid|funds|mismatch|noinputs|nooutputs|manytomany|nomodacc|later
+         followed by `<addr>=<coins>` — the balance AFTER the call of the sender, `to`, every payer, every
+         receiver and the quarantine funds holder, in the denoms of fund/coins/ins/outs (first appearance)
+       (model: `Bank.sendCoins` / `inputOutputCoinsProv` / `delegateCoins` with `later = Bank.appLater`;
+        verdict: `Bank.Spec.outcome` / `expectedBal` against the implementation's class and balances)
   match <required> <attribute>           keeper.MatchAttribute            → 1 | 0      (`~` = empty string)
   bypasslist                             the app's required-attribute bypass set → sorted symbolic names
 The verdict is the documented flowchart's answer (`Spec.sendRestrictionFn`) against the
@@ -19,6 +32,7 @@ implementation's allow/deny.
 -/
 import PvModel.MkrSendSpec
 import PvModel.MkrBank
+import PvModel.MkrBankSpec
 import PvModel.Util
 -- registry: mkrsend PvModel.MkrSend.driver
 
@@ -133,6 +147,127 @@ def bankRun (c : Case) (via : String) (fund : Option Coins) : String :=
   | .error (.denied r) => "deny:" ++ r.cls ++ " " ++ mv
   | .error _ => "err:bank " ++ mv
 
+/-! ### the `bankx` op -/
+
+structure CaseX where
+  c : Case
+  via : String
+  ins : List Bank.IO      -- as written (empty = the one input `from`/`coins`)
+  outs : List Bank.IO     -- as written (empty = the one output `to`/`coins`)
+  fund : Option Coins
+  hold : Coins
+  sanc : List Addr
+  quar : List Addr
+  qacc : List Addr
+  rto : List Addr
+
+def parseIOs (s : String) : Option (List Bank.IO) :=
+  (splitList s "/").mapM fun p =>
+    match p.splitOn "@" with
+    | [cs, a] => (parseCoins? cs).map fun c => ⟨a, c⟩
+    | _ => none
+
+def parseCaseX (ws : List String) : Option CaseX := do
+  let c ← parseCase ws
+  let ins ← parseIOs ((kv ws "ins").getD "-")
+  let outs ← parseIOs ((kv ws "outs").getD "-")
+  let hold ← parseCoins? ((kv ws "hold").getD "-")
+  pure { c, via := (kv ws "via").getD "send", ins, outs, fund := (kv ws "fund").bind parseCoins?, hold,
+         sanc := splitList ((kv ws "sanc").getD "-"), quar := splitList ((kv ws "quar").getD "-"),
+         qacc := splitList ((kv ws "qacc").getD "-"), rto := splitList ((kv ws "rto").getD "-") }
+
+def quarantineHolder : Addr := "bp:quarantine"
+
+namespace CaseX
+
+def from_ (x : CaseX) : Addr := x.c.cfg.fromAddr
+def to (x : CaseX) : Addr := x.c.cfg.toAddr
+def insE (x : CaseX) : List Bank.IO := if x.ins.isEmpty then [⟨x.from_, x.c.amt⟩] else x.ins
+def outsE (x : CaseX) : List Bank.IO := if x.outs.isEmpty then [⟨x.to, x.c.amt⟩] else x.outs
+/-- a plain send / a delegation names one payer and one receiver whatever `ins`/`outs` say -/
+def single (x : CaseX) : Bool := x.via = "send" || x.via = "delegate"
+def insU (x : CaseX) : List Bank.IO := if x.single then [⟨x.from_, x.c.amt⟩] else x.insE
+def outsU (x : CaseX) : List Bank.IO := if x.single then [⟨x.to, x.c.amt⟩] else x.outsE
+
+def laterCfg (x : CaseX) : Bank.LaterCfg :=
+  { sanctioned := x.sanc.contains, quarantined := x.quar.contains,
+    autoAccept := fun t _ => x.qacc.contains t, fundsHolder := quarantineHolder }
+
+def locked (x : CaseX) : Addr → Denom → Int :=
+  fun a d => if a = x.from_ then Coins.amountOf x.hold d else 0
+
+/-- the stores: `rattrs` sit on `to` and on the `rto` addresses -/
+def env (x : CaseX) : Cfg :=
+  { x.c.cfg with attrs := fun a => if a = x.to || x.rto.contains a then x.c.cfg.attrs x.to else [] }
+
+def world (x : CaseX) : Bank.World :=
+  { env := x.env, locked := x.locked, later := Bank.appLater x.laterCfg, hasAccount := fun _ => true }
+
+/-- balances before the call: the sender holds `fund` (default: its inputs), every other payer its inputs -/
+def ledger0 (x : CaseX) : Ledger :=
+  let own := Bank.sumCoins (x.insE.filter fun i => i.addr = x.from_)
+  (x.insE.filter fun i => ¬ i.addr = x.from_).foldl (fun l i => l.credit i.addr i.coins)
+    (Ledger.credit [] x.from_ (x.fund.getD own))
+
+def dumpDenoms (x : CaseX) : List Denom :=
+  (Coins.denoms (x.fund.getD []) ++ Coins.denoms x.c.amt ++ Bank.Spec.allDenoms x.ins ++ Bank.Spec.allDenoms x.outs).eraseDups
+
+def dumpAccts (x : CaseX) : List Addr :=
+  ([x.from_, x.to] ++ x.ins.map (·.addr) ++ x.outs.map (·.addr) ++ [quarantineHolder]).eraseDups
+
+def dump (x : CaseX) (bal : Addr → Denom → Int) : String :=
+  " ".intercalate (x.dumpAccts.map fun a =>
+    a ++ "=" ++ showCoins ((x.dumpDenoms.map fun d => (d, bal a d)).filter fun c => c.2 ≠ 0))
+
+def call (x : CaseX) : Except Bank.Err Ledger :=
+  if x.via = "delegate" then Bank.delegateCoins x.world x.ledger0 x.from_ x.to x.c.amt
+  else if x.via = "send" then Bank.sendCoins x.world x.ledger0 x.from_ x.to x.c.amt
+  else Bank.inputOutputCoinsProv x.world x.ledger0 x.insE x.outsE
+
+end CaseX
+
+def resultStr : Except Bank.Err Ledger → String
+  | .ok _ => "allow"
+  | .error (.denied r) => "deny:" ++ r.cls
+  | .error .invalid => "err:invalid"
+  | .error .funds => "err:funds"
+  | .error .noInputs => "err:noinputs"
+  | .error .noOutputs => "err:nooutputs"
+  | .error .manyToMany => "err:manytomany"
+  | .error .mismatch => "err:mismatch"
+  | .error .noModuleAcc => "err:nomodacc"
+  | .error .later => "err:later"
+
+def bankxRun (x : CaseX) : String :=
+  let res := x.call
+  resultStr res ++ " " ++ x.dump (Bank.commit x.ledger0 res).bal
+
+/-- The property's conclusion on a `bankx` line: the class and the balances the implementation reports
+against `Bank.Spec.outcome` / `expectedBal`. -/
+def checkX (x : CaseX) (iw : List String) : String :=
+  match iw with
+  | [] => "fail:bankx_unparsed"
+  | cls :: bals =>
+    let oc := Bank.Spec.outcome x.env x.laterCfg x.locked x.ledger0 x.insU x.outsU
+    let want := x.dump (Bank.Spec.expectedBal x.env x.laterCfg (x.via = "delegate") x.locked x.ledger0 x.insU x.outsU)
+    let same := " ".intercalate bals = want
+    let isBankErr := cls.startsWith "err:" && cls ≠ "err:later"
+    match oc with
+    | .rejected =>
+      if isBankErr && same then "ok" else "fail:bankx_malformed_or_unfunded_not_rejected"
+    | .performed =>
+      if cls = "allow" then (if same then "ok" else "fail:bankx_allowed_wrong_balances")
+      else if cls.startsWith "deny:" then "fail:bankx_denied_but_rules_allow:" ++ (cls.drop 5).toString
+      else "fail:bankx_refused_but_nothing_forbids:" ++ cls
+    | .refused rules sanction =>
+      if cls = "allow" then
+        (if rules then "fail:bankx_moved_but_rules_deny" else "fail:bankx_sanctioned_payer_moved")
+      else if !same then "fail:bankx_refused_yet_balances_changed"
+      else if !rules && cls ≠ "err:later" then "fail:bankx_denied_but_rules_allow:" ++ cls
+      else if !sanction && !cls.startsWith "deny:" then "fail:bankx_wrong_refusal:" ++ cls
+      else if cls.startsWith "deny:" || cls = "err:later" then "ok"
+      else "fail:bankx_wrong_refusal:" ++ cls
+
 def run (ws : List String) : String :=
   match ws with
   | "send" :: rest =>
@@ -142,6 +277,10 @@ def run (ws : List String) : String :=
   | "bank" :: rest =>
     match parseCase rest with
     | some c => bankRun c ((kv rest "via").getD "send") ((kv rest "fund").bind parseCoins?)
+    | none => "bad-op"
+  | "bankx" :: rest =>
+    match parseCaseX rest with
+    | some x => bankxRun x
     | none => "bad-op"
   | ["match", r, a] => boolStr (matchAttribute (unTilde r).toList (unTilde a).toList)
   | ["bypasslist"] => "|".intercalate Spec.bypassAccounts
@@ -189,6 +328,10 @@ def check (ws : List String) (impl : String) : String :=
       | .denied _, [d, "unmoved"] => if d.startsWith "deny:" then "ok" else "fail:bank_allowed_nothing_moved"
       | _, [_, "moved"] => "fail:bank_denied_yet_moved"
       | _, _ => "fail:bank_unexpected"
+    | none => "-"
+  | "bankx" :: rest =>
+    match parseCaseX rest with
+    | some x => checkX x iw
     | none => "-"
   | ["match", r, a] =>
     if boolStr (Spec.satisfies (unTilde r).toList (unTilde a).toList) = impl then "ok" else "fail:match_attribute"
